@@ -322,6 +322,7 @@ func (t *Task) BuildTaskCommand(role parentRole) (err error) {
 				return fmt.Errorf("cannot resolve templates for task defaults: %w", err)
 			}
 
+			roleStack := varStack // everything coming from the workflow (plus the special values)
 			varStack, err = gera.MakeMapWithMap(varStack).WrappedAndFlattened(gera.MakeMapWithMap(localDefaults))
 			if err != nil {
 				log.WithError(err).
@@ -348,7 +349,7 @@ func (t *Task) BuildTaskCommand(role parentRole) (err error) {
 
 			// We wrap the parent varStack around the task's already processed Defaults,
 			// ensuring that any taskclass Defaults are overridden by anything else.
-			varStack, err = gera.MakeMapWithMap(varStack).WrappedAndFlattened(gera.MakeMapWithMap(localVars))
+			varStack, err = gera.MakeMapWithMap(roleStack).WrappedAndFlattened(gera.MakeMapWithMap(localVars).Wrap(gera.MakeMapWithMap(localDefaults)))
 			if err != nil {
 				log.WithError(err).
 					WithField("partition", role.GetEnvironmentId().String()).
